@@ -189,12 +189,36 @@ class GateLock:
         return self._real.locked()
 
 
-def replay_schedule(util_mod, cls, tracked, lock_attrs, calls, schedule, timeout=5.0):
+class GateEvent:
+    """threading.Event attribute used as a flag: set/clear are writes, is_set is a read of that attribute"""
+
+    def __init__(self, real, name, sched):
+        self._real, self._name, self._sched = real, name, sched
+
+    def set(self):
+        self._sched.gate("write", self._name)
+        self._real.set()
+
+    def clear(self):
+        self._sched.gate("write", self._name)
+        self._real.clear()
+
+    def is_set(self):
+        self._sched.gate("read", self._name)
+        return self._real.is_set()
+
+    isSet = is_set
+
+    def wait(self, timeout=None):
+        return self._real.wait(timeout)
+
+
+def replay_schedule(util_mod, cls, tracked, lock_attrs, calls, schedule, timeout=5.0, event_attrs=()):
     """calls: [(method, args)] of the caller thread; schedule: list of {"thread","op",...}.
     -> dict(leaked=[timer idx...], threads=[...], desync=None|str, bytes_after_exit, rearmed, log)"""
     sched = Scheduler(timeout)
     Ctl = make_timer_class(sched)
-    tracked = set(tracked)
+    tracked = set(tracked) - set(event_attrs)
 
     class Traced(cls):
         def __getattribute__(self, name):
@@ -226,6 +250,8 @@ def replay_schedule(util_mod, cls, tracked, lock_attrs, calls, schedule, timeout
             object.__setattr__(obj, "_file", out)
         for la in lock_attrs:
             object.__setattr__(obj, la, GateLock(object.__getattribute__(obj, la), la, sched))
+        for ea in event_attrs:
+            object.__setattr__(obj, ea, GateEvent(object.__getattribute__(obj, ea), ea, sched))
 
         def caller():
             sched.thread_started("main")
@@ -317,6 +343,7 @@ class Hooks:
         self.fired = None
         self.tool = None
         self.variant = {}            # extra keyword arguments of the API call (driver variants)
+        self.seq = []                # keys of the executed call expressions, in order
 
     def key_at(self, offset):
         p = self.pos[offset // 2]
@@ -329,6 +356,8 @@ class Hooks:
         n = self.counts.get(k, 0) + 1
         self.counts[k] = n
         self.current = (k, n)
+        if len(self.seq) < 200000:
+            self.seq.append(k)
         if self.mode == "direct" and self.chosen == (k, n) and self.fired is None:
             self.fired = "direct"
             raise FaultInjected("injected at call ending line %d col %d, occurrence %d" % (k[0], k[1], n))
@@ -415,6 +444,7 @@ def run_api(driver, fn, mode, chosen=None, progress_type="bar", variant=None):
     res["fired"] = hooks.fired
     res["reach"] = hooks.reach
     res["counts"] = hooks.counts
+    res["seq"] = hooks.seq
     res["stdout_bytes"] = len(out.getvalue())
     return res
 
